@@ -46,8 +46,10 @@ func TestC14Binary(t *testing.T) {
 		args := []string{"--data", filepath.Join(dir, "data"), "--path", dir, "--address", addr, "--env-files", "", "--config", filepath.Join(dir, "cfg.yml")}
 		// where the secret is configured: on the command line, in the environment, in the config file, or nowhere
 		// (the program then creates the config file with a secret of its own)
-		secret := "case-secret-" + rapid.StringMatching(`[a-zA-Z0-9]{8,24}`).Draw(rt, "secret")
-		secretHow := rapid.SampledFrom([]string{"flag", "env", "file", "generated", "flag+left-over-file", "env+left-over-file"}).Draw(rt, "secretConfiguredBy")
+		// (secrets are arbitrary strings: also with $ { } % # and the like, which mean something to shells, to
+		// environment expansion and to YAML - the configured secret is the string as written)
+		secret := "case-secret-" + rapid.StringMatching(`[a-zA-Z0-9]{1,3}`).Draw(rt, "secretHead") + rapid.SampledFrom([]string{"$", "$", "${", "%", "#", ""}).Draw(rt, "secretSpecial") + rapid.StringMatching(`[a-zA-Z0-9]{3,8}[a-zA-Z0-9${}%#!:*&@ -]{3,8}[a-zA-Z0-9]`).Draw(rt, "secretTail")
+		secretHow := rapid.SampledFrom([]string{"flag", "env", "file", "file", "generated", "flag+left-over-file", "env+left-over-file"}).Draw(rt, "secretConfiguredBy")
 		var extraEnv []string
 		// "left-over file": the config file of an earlier run (which had made up a secret) is still there, and
 		// the operator now passes a secret explicitly. The documentation says the file is created and used "if
@@ -65,7 +67,7 @@ func TestC14Binary(t *testing.T) {
 		case "env", "env+left-over-file":
 			extraEnv = append(extraEnv, "PRUNNER_JWT_SECRET="+secret)
 		case "file":
-			if err := os.WriteFile(filepath.Join(dir, "cfg.yml"), []byte("jwt_secret: "+secret+"\n"), 0o600); err != nil {
+			if err := os.WriteFile(filepath.Join(dir, "cfg.yml"), []byte("jwt_secret: "+yq(secret)+"\n"), 0o600); err != nil {
 				rt.Fatalf("write: %v", err)
 			}
 		}
@@ -148,6 +150,11 @@ func TestC14Binary(t *testing.T) {
 		auth := jwtauth.New("HS256", []byte(secret), nil)
 		_, token, _ := auth.Encode(map[string]interface{}{"sub": "bin"})
 		_, expired, _ := auth.Encode(map[string]interface{}{"sub": "bin", "exp": time.Now().Add(-time.Hour).Unix()})
+		// a key somebody could derive from the configured secret by expanding what looks like variables in it
+		expandedToken := wrongToken
+		if exp := os.ExpandEnv(secret); exp != secret && exp != "" {
+			_, expandedToken, _ = jwtauth.New("HS256", []byte(exp), nil).Encode(map[string]interface{}{"sub": "bin"})
+		}
 		leftOverToken := wrongToken
 		if leftOver != "" {
 			_, leftOverToken, _ = jwtauth.New("HS256", []byte(leftOver), nil).Encode(map[string]interface{}{"sub": "bin"})
@@ -160,7 +167,7 @@ func TestC14Binary(t *testing.T) {
 			}
 			if code == 401 || time.Now().After(deadline) {
 				// the server is up and refuses the token signed with the configured secret: whom does it let in?
-				for name, cred := range map[string]string{"wrong-secret": wrongToken, "signed-with-empty-key": emptyKeyToken, "signed-with-left-over-file-secret": leftOverToken} {
+				for name, cred := range map[string]string{"wrong-secret": wrongToken, "signed-with-empty-key": emptyKeyToken, "signed-with-left-over-file-secret": leftOverToken, "signed-with-the-secret-after-environment-expansion": expandedToken} {
 					if code, _ := do("GET", "/pipelines/", cred, "header"); code == 200 {
 						rt.Fatalf("[C14] secret configured by %s: GET /pipelines/ with credential %q -> 200 (and a token signed with the configured secret is refused)", secretHow, name)
 					}
@@ -169,10 +176,10 @@ func TestC14Binary(t *testing.T) {
 			}
 			time.Sleep(20 * time.Millisecond)
 		}
-		creds := map[string]string{"none": "", "garbage": "not.a.token", "wrong-secret": wrongToken, "expired": expired, "empty-bearer": " ", "signed-with-empty-key": emptyKeyToken, "signed-with-left-over-file-secret": leftOverToken}
+		creds := map[string]string{"none": "", "garbage": "not.a.token", "wrong-secret": wrongToken, "expired": expired, "empty-bearer": " ", "signed-with-empty-key": emptyKeyToken, "signed-with-left-over-file-secret": leftOverToken, "signed-with-the-secret-after-environment-expansion": expandedToken}
 		n := rapid.IntRange(8, 20).Draw(rt, "probes")
 		for i := 0; i < n; i++ {
-			credName := rapid.SampledFrom([]string{"none", "none", "garbage", "wrong-secret", "expired", "empty-bearer", "signed-with-empty-key", "signed-with-left-over-file-secret"}).Draw(rt, "credential")
+			credName := rapid.SampledFrom([]string{"none", "none", "garbage", "wrong-secret", "expired", "empty-bearer", "signed-with-empty-key", "signed-with-left-over-file-secret", "signed-with-the-secret-after-environment-expansion"}).Draw(rt, "credential")
 			transport := rapid.SampledFrom([]string{"header", "cookie"}).Draw(rt, "transport")
 			kind := rapid.SampledFrom([]string{"api", "api", "debug", "debug", "other"}).Draw(rt, "pathKind")
 			// The client keeps its connection open: in a third of the probes a request with a valid token (which
